@@ -221,7 +221,7 @@ FRESH_CALLS = {'zeros', 'ones', 'empty', 'full', 'array', 'zeros_like', 'ones_li
                'compress', 'choose', 'select', 'interp', 'histogram', 'bincount', 'outer', 'add', 'subtract',
                'multiply', 'divide', 'greater', 'less', 'equal', 'not_equal', 'greater_equal', 'less_equal',
                'points_inside_poly', 'contains', 'contains3d', 'floodfill', 'rotation_matrix_2d', 'ascontiguousarray_copy'}
-ALIAS_CALLS = {'ravel', 'reshape', 'view', 'squeeze', 'transpose', 'swapaxes', 'asarray', 'asanyarray',
+ALIAS_CALLS = {'require', 'ravel', 'reshape', 'view', 'squeeze', 'transpose', 'swapaxes', 'asarray', 'asanyarray',
                'broadcast_to', 'atleast_1d', 'atleast_2d', 'ascontiguousarray', 'unbroadcast', 'broadcast_arrays',
                'flatten_view'}
 SHARED_CALLS = {'to_mask', 'get_mask', 'get_data', 'get_component', 'compute', 'to_array'}
